@@ -21,6 +21,13 @@ Theorem C20_key_free_sw_zero : released_zeroed x_key_free_sw.
 Proof. exact key_free_sw_zero. Qed.
 Print Assumptions C20_key_free_sw_zero.
 
+(* the same software path as it is compiled in the AES-NI build configuration (after the run-time
+   hand-over test `hwaccel == HW_X86_AESNI`): an OpenSSL key object freed by a library built with
+   CPUSUPPORT_X86_AESNI on a CPU without AES-NI, or after a failed self-test *)
+Theorem C20_key_free_sw_in_aesni_build_zero : released_zeroed x_key_free_sw_ni.
+Proof. exact key_free_sw_ni_zero. Qed.
+Print Assumptions C20_key_free_sw_in_aesni_build_zero.
+
 Theorem C20_aesctr_free_zero : released_zeroed x_aesctr_free.
 Proof. exact aesctr_free_zero. Qed.
 Print Assumptions C20_aesctr_free_zero.
